@@ -73,7 +73,7 @@ def discretise (g : List Rat) (steps : Nat) (P : PB) (n : Option Nat) (lv : List
 level; the two alpha-cut arrays are checked, the paired result (LightweightInterval) is not.  `lv` = the `n` levels (`g` itself when `n=None`). -/
 def outerDiscretisation (g : List Rat) (P : PB) (lv : List Rat) : Except Err (List Ivl) := do
   let ls ← alphaCutArr g P lv.dropLast
-  let rs ← alphaCutArr g P (lv.drop 1)
+  let rs ← alphaCutArr g P lv.tail
   pure ((ls.map (·.1)).zip (rs.map (·.2)))
 
 /-- `condensation(n)` = `stacking(outer_discretisation(n))` with equal masses -/
